@@ -1145,8 +1145,11 @@ def run_history(c):
                 if st.get("scribble"):
                     # the caller overwrites what it was given; later calls must not see that
                     for a in (res if isinstance(res, tuple) else (res,)):
-                        if isinstance(a, np.ndarray) and a.size and a.flags.writeable:
-                            a.view("u1").reshape(-1)[:] = 0xAA if a.flags.c_contiguous else 0
+                        try:
+                            if isinstance(a, np.ndarray) and a.size and a.flags.writeable:
+                                a[...] = np.zeros((), dtype=a.dtype)      # works for strided field views as well
+                        except Exception:  # noqa  (the scribble is the harness's own action, never an outcome)
+                            pass
             except Exception as e:  # noqa
                 out = ["err", core.errclass(e), "%s: %s" % (type(e).__name__, str(e)[:160])]
             outs.append({"out": out, "full": fullc, "data": data.hex(), "nrows": int(arr.size)})
